@@ -47,14 +47,66 @@ class World:
         self.bus = Bus(self.sim, random.Random(seed ^ 0x9E3779B9), latency, zero_prob)
         self.bus.ts_mode = random.Random(seed ^ 0x7157).choice(['epoch'] * 6 + ['zero', 'zero', 'relative', 'relative'])
         self.stacks = []
+        self.bystander = None
+        self.bystander_mode = os.environ.get('VERIF_BYSTANDER') or random.Random(seed ^ 0xB157).choice(['before', 'before', 'after', 'after', 'none', 'none', 'none'])
         self.deliv = collections.defaultdict(list)     # listener key -> [(t, prio, pgn, sa, bytes)]
         self.calls = []                                # (t_call, t_ret, what, result|exc)
         self.harness_problems = []
         self.runaway = []
 
     # -- construction ---------------------------------------------------------------------
+    def add_bystander(self, dll):
+        """an ECU object of the same kind in the same process that is NOT connected to the bus, configured differently from the stacks
+        under test: whatever they do, its listeners stay silent, it sends nothing after its own start-up, its session tables stay empty and
+        its own periodic timer keeps its pace (state shared between objects -- class attributes -- would show here)"""
+        keep = self.sim.trace_hook
+        self.sim.trace_hook = None
+        try:
+            n = StackNode(self.bus, 'BY', self.j1939, dll, max_cmdt_packets=7, minimum_tp_rts_cts_dt_interval=0.003, minimum_tp_bam_dt_interval=0.011)
+        finally:
+            self.sim.trace_hook = keep
+        self.bus.nodes.remove(n)
+        n.isolated = True
+        ev = []
+        ticks = []
+        c = self.ca(n, 0x7B, identity_number=0x1B57, bypass=True)
+        c.subscribe(lambda priority, pgn, sa, timestamp, data: ev.append((self.sim.now, 'ca listener', pgn, sa)))
+        n.ecu.subscribe(lambda priority, pgn, sa, timestamp, data: ev.append((self.sim.now, 'ecu listener', pgn, sa)))
+        c.subscribe_request(lambda src, dst, pgn: ev.append((self.sim.now, 'request subscriber', pgn, src)))
+        n.ecu.add_timer(0.37, lambda cookie: (ticks.append(self.sim.now), True)[1])
+        self.bystander = dict(node=n, ca=c, events=ev, ticks=ticks, t_reg=self.sim.now, sent0=len(n.isolated_sent))
+
+    def bystander_problems(self):
+        b = self.bystander
+        if b is None:
+            return []
+        out = []
+        n = b['node']
+        if b['events']:
+            out.append('its %s was called (%d calls; first: pgn %05X from SA %02X at %.4f)' % (b['events'][0][1], len(b['events']), b['events'][0][2], b['events'][0][3], b['events'][0][0]))
+        if len(n.isolated_sent) > b['sent0']:
+            t, cid, data = n.isolated_sent[b['sent0']]
+            out.append('it tried to send %d frame(s); first: %08X %s at %.4f' % (len(n.isolated_sent) - b['sent0'], cid, data.hex(), t))
+        tb = n.tables()
+        if any(tb.values()):
+            out.append('its session tables hold entries: %s' % tb)
+        if n.job_state is not None and n.job_state.finished:
+            out.append('its job thread ended')
+        # its own 370 ms timer: calls on the grid t_reg + k * 0.37 (within 2 ms), none missing up to now, none extra
+        exp = int((self.sim.now - b['t_reg'] - 0.003) / 0.37)
+        tk = b['ticks']
+        # (epoch-scale floats: every `deadline += delta` of the library rounds by up to 1.2e-7 s, in either direction)
+        bad = [t for k, t in enumerate(tk) if not (-(2e-6 + 3e-7 * (k + 1)) <= t - (b['t_reg'] + (k + 1) * 0.37) <= 0.002 + 1e-4 * (k + 1))]
+        if bad or len(tk) < exp or len(tk) > exp + 1:
+            out.append('its own 370 ms timer was called %d times in %.3f s (expected %d), off-grid calls at %s' % (len(tk), self.sim.now - b['t_reg'], exp, [round(t, 4) for t in bad[:3]]))
+        return out
+
     def stack(self, name, dll=None, **kw):
+        if self.bystander_mode == 'before' and self.bystander is None:
+            self.add_bystander(dll or self.dll)
         n = StackNode(self.bus, name, self.j1939, dll or self.dll, **kw)
+        if self.bystander_mode == 'after' and self.bystander is None:
+            self.add_bystander(dll or self.dll)
         self.stacks.append(n)
         st = n.job_state
         if st is None:
